@@ -4,11 +4,17 @@ package snowflake_client
 // concrete description built by harness/cmd/sdpdrv (from the cases TLC
 // enumerated in spec/SdpStrip) is handed to the real BrokerChannel.Negotiate,
 // with and without keep-local-addresses, over a scripted RendezvousMethod that
-// captures what would be sent to the broker.  The captured text is judged by
-// `sdpdrv judge` (same oracle as for util.StripLocalAddresses).
+// captures what would be sent to the broker.  The rendezvous follows an
+// ENVIRONMENT SCRIPT of the call-site machine of spec/SdpStrip (TLC's Scripts;
+// script number = case index modulo their count): its first exchanges fail
+// (transport-level kinds: an error; http500: a broker error response), then it
+// returns an answer.  EVERY payload handed to the rendezvous method is
+// captured (as the code is, Negotiate exchanges once and never retries) and
+// all are judged by `sdpdrv judge` (same oracle as for util.StripLocalAddresses).
 //
-// Input  (env VERIF_C08_IN):  ndjson {"idx":n,"sdp":text}
-// Output (env VERIF_C08_OUT): ndjson {"idx":n,"keeplocal":b,"sent":text | "notsent":true | "panic":text}
+// Input  (env VERIF_C08_IN):      ndjson {"idx":n,"sdp":text}
+//        (env VERIF_C08_SCRIPTS): ndjson {"faults":[kind,...]}
+// Output (env VERIF_C08_OUT): ndjson {"idx":n,"keeplocal":b,"faults":[..],"sents":[text,...] | "panic":text}
 
 import (
 	"bufio"
@@ -29,30 +35,38 @@ import (
 )
 
 type verifC08Rendezvous struct {
-	sent  []string
-	calls int
+	faults    []string
+	sent      []string
+	calls     int
+	undecoded int
 }
 
 func (r *verifC08Rendezvous) Exchange(enc []byte) ([]byte, error) {
+	k := r.calls
 	r.calls++
-	req, err := messages.DecodeClientPollRequest(enc)
-	if err != nil {
-		return nil, fmt.Errorf("harness: undecodable poll request: %v", err)
+	if req, err := messages.DecodeClientPollRequest(enc); err != nil {
+		r.undecoded++
+	} else if d, err := util.DeserializeSessionDescription(req.Offer); err != nil {
+		r.undecoded++
+	} else {
+		r.sent = append(r.sent, d.SDP)
 	}
-	d, err := util.DeserializeSessionDescription(req.Offer)
-	if err != nil {
-		return nil, fmt.Errorf("harness: undecodable offer: %v", err)
+	if k < len(r.faults) {
+		if r.faults[k] == "http500" {
+			return (&messages.ClientPollResponse{Error: "scripted broker error"}).EncodePollResponse()
+		}
+		return nil, errors.New("scripted rendezvous fault: " + r.faults[k])
 	}
-	r.sent = append(r.sent, d.SDP)
-	return nil, errors.New("scripted rendezvous: no answer")
+	return (&messages.ClientPollResponse{Answer: `{"type":"answer","sdp":"v=0\r\n"}`}).EncodePollResponse()
 }
 
 type verifC08Capture struct {
-	Idx       int    `json:"idx"`
-	KeepLocal bool   `json:"keeplocal"`
-	Sent      string `json:"sent"`
-	NotSent   bool   `json:"notsent,omitempty"`
-	Panic     string `json:"panic,omitempty"`
+	Idx       int      `json:"idx"`
+	KeepLocal bool     `json:"keeplocal"`
+	Faults    []string `json:"faults"`
+	Sents     []string `json:"sents"`
+	Undecoded int      `json:"undecoded,omitempty"`
+	Panic     string   `json:"panic,omitempty"`
 }
 
 func TestVerifC08Negotiate(t *testing.T) {
@@ -86,6 +100,28 @@ func TestVerifC08Negotiate(t *testing.T) {
 	if err := sc.Err(); err != nil {
 		t.Fatal(err)
 	}
+	var scripts [][]string
+	sf, err := os.Open(os.Getenv("VERIF_C08_SCRIPTS"))
+	if err != nil {
+		t.Fatal(err)
+	}
+	sc = bufio.NewScanner(sf)
+	for sc.Scan() {
+		if len(bytes.TrimSpace(sc.Bytes())) == 0 {
+			continue
+		}
+		var x struct {
+			Faults []string `json:"faults"`
+		}
+		if err := json.Unmarshal(sc.Bytes(), &x); err != nil {
+			t.Fatalf("bad script line: %v", err)
+		}
+		scripts = append(scripts, x.Faults)
+	}
+	sf.Close()
+	if len(scripts) == 0 {
+		t.Fatal("no environment scripts")
+	}
 	caps := make([]verifC08Capture, 2*len(items))
 	var wg sync.WaitGroup
 	sem := make(chan struct{}, 16)
@@ -97,7 +133,7 @@ func TestVerifC08Negotiate(t *testing.T) {
 				defer wg.Done()
 				defer func() { <-sem }()
 				c := &caps[slot]
-				c.Idx, c.KeepLocal = it.Idx, keep
+				c.Idx, c.KeepLocal, c.Faults = it.Idx, keep, scripts[(it.Idx+slot%2*7)%len(scripts)]
 				defer func() {
 					if v := recover(); v != nil {
 						c.Panic = fmt.Sprintf("%v\n%s", v, debug.Stack())
@@ -108,7 +144,7 @@ func TestVerifC08Negotiate(t *testing.T) {
 				if err != nil {
 					panic(err)
 				}
-				rv := &verifC08Rendezvous{}
+				rv := &verifC08Rendezvous{faults: c.Faults}
 				bc.Rendezvous = rv
 				offer := &webrtc.SessionDescription{Type: webrtc.SDPTypeOffer, SDP: it.SDP}
 				bc.Negotiate(offer)
@@ -116,11 +152,7 @@ func TestVerifC08Negotiate(t *testing.T) {
 					c.Panic = "Negotiate modified the caller's SessionDescription"
 					return
 				}
-				if rv.calls != 1 || len(rv.sent) != 1 {
-					c.NotSent = true
-					return
-				}
-				c.Sent = rv.sent[0]
+				c.Sents, c.Undecoded = append([]string{}, rv.sent...), rv.undecoded
 			}(2*i+k, items[i], keep)
 		}
 	}
